@@ -312,3 +312,95 @@ def engine_obligations(ctx, repo, r_fifo, r_throttle, r_first, r_iso):
     except PyRaise as ex:
         ok, why = False, ex.what
     ctx.ob(r_iso, f"{ps.qual}::send-exception-contained", ok, f"{ps.qual}: a failing sendto is not contained or stops later sends ({why})", ps.loc)
+
+
+def _largest_update_datagram():
+    """the longest datagram the protocol produces: one partial update carrying 255 changes (the count is one byte),
+    wrapped for a spa / client pair with identifiers of the usual lengths"""
+    body = b"STATP" + bytes([255]) + b"".join(bytes([1, i, 0, i]) for i in range(255))
+    return b"<PACKT><SRCCN>SPA01:02:03:04:05:06</SRCCN><DESCN>IOS" + b"01234567-89ab-cdef-0123-456789abcdef" + b"</DESCN><DATAS>" + body + b"</DATAS></PACKT>"
+
+
+def _flat(v, depth=0):
+    if isinstance(v, (tuple, list)) and depth < 4:
+        for x in v:
+            yield from _flat(x, depth + 1)
+    elif isinstance(v, Obj) and depth < 4:
+        for x in v.attrs.values():
+            yield from _flat(x, depth + 1)
+    else:
+        yield v
+
+
+def receive_paths_verbatim(ctx, repo, rule, only=("blocking", "awaitable"), skip=()):
+    """What arrives is what the handlers see, byte for byte, on both stacks: the datagram handed to the receive side
+    (model socket whose recvfrom cuts a datagram to the buffer size asked for, as UDP does; the protocol's
+    datagram_received callback) reaches the handlers / the receive queue unchanged - not cut short, not stripped.
+    Probed with the longest datagram the protocol produces (a partial update with 255 changes) and with content that
+    begins and ends in bytes a text clean-up would remove (the awaitable client feeds unwrapped binary content through
+    the same callback: a 39-byte block segment may end in 0x20 / 0x0a)."""
+    probes = {"longest-update": _largest_update_datagram(),
+              "whitespace-edges": b"\t STATV\x00\x01\x27" + bytes(range(0x30, 0x30 + 36)) + b"\x0c \r\n",
+              "nul-edges": b"\x00\x00STATV\x01\x02\x27" + bytes(37) + b"\x00\x00"}
+    probes = {k_: v_ for k_, v_ in probes.items() if k_ not in skip}
+    sender = ("10.0.0.9", 10022)
+    if "blocking" in only:
+        prd = repo.method(SOCK, "_process_received_data")
+        for name, data in probes.items():
+            e = Engine(repo)
+            inbox = [(data, sender)]
+            asked = []
+
+            def recvfrom(a, k, inbox=inbox, asked=asked):
+                if inbox:
+                    d, s = inbox.pop(0)
+                    n = a[0] if a else k.get("bufsize")
+                    asked.append(n)
+                    if not isinstance(n, int) or isinstance(n, bool):
+                        raise PyRaise("TypeError: recvfrom needs a buffer size")
+                    return d[:n], s
+                raise PyRaise("socket.timeout: timed out")
+            e.os_sock.attrs["recvfrom"] = Native(recvfrom, "recvfrom")
+            e.obj.attrs["_exit_event"] = Obj(None, {"is_set": Native(lambda a, k: False), "wait": Native(lambda a, k: None), "set": Native(lambda a, k: None)}, name="event")
+            seen = []
+            H = e.handler("H", can=lambda b, seen=seen: (seen.append(b), True)[1])
+            e.call("add_receive_handler", H)
+            try:
+                e.call("_process_received_data")
+                got = seen[0] if seen else None
+            except PyRaise as ex:
+                got = f"raises {ex.what}"
+            ok = isinstance(got, (bytes, bytearray)) and bytes(got) == data
+            what = (f"only the first {len(got)} of its {len(data)} bytes (buffer of {asked[:1]} bytes asked for)" if isinstance(got, (bytes, bytearray)) and data.startswith(bytes(got)) and got != data
+                    else f"{bytes(got)[:12]!r}...{bytes(got)[-8:]!r} ({len(got)} bytes)" if isinstance(got, (bytes, bytearray)) else repr(got))
+            ctx.ob(rule, f"{prd.qual}::{name}::handlers-see-the-datagram", ok,
+                   f"{prd.qual}: of a {len(data)}-byte datagram ({name}) the handlers are shown {what}: a datagram that is cut or altered on the way in is claimed by no handler (a whole partial update is dropped, unacknowledged) or is decoded short",
+                   prd.loc, sample={"rule": rule, "stack": "blocking", "probe": name, "bytes": len(data), "buffer_asked": asked[:1]})
+    if "awaitable" in only:
+        pc = repo.cls("GeckoAsyncUdpProtocol")
+        dr = repo.all_methods(pc).get("datagram_received")
+        if dr is None:
+            raise AnalysisError("GeckoAsyncUdpProtocol.datagram_received not found")
+        for name, data in probes.items():
+            interp = Interp(repo, max_depth=10)
+            init = repo.all_methods(pc).get("__init__")
+            a_ = init.node.args
+            n_pos = len(a_.args) - 1 - len(a_.defaults)
+            try:
+                proto = interp.apply(ClassRef(pc), [Obj(None, {"done": Native(lambda a, k: False), "set_result": Native(lambda a, k: None)}, name=f"arg{i}") for i in range(n_pos)], {})
+                interp.call(dr, proto, [data, sender])
+                q = interp.getattr(proto, "queue")
+                head = interp.getattr(q, "head")
+                got = [x for x in _flat(head) if isinstance(x, (bytes, bytearray))]
+                addr_ok = any(x == sender[0] for x in _flat(head))
+            except PyRaise as ex:
+                got, addr_ok = f"raises {ex.what}", False
+            except Undecided as ex:
+                raise AnalysisError(f"{dr.qual}: cannot interpret: {ex}")
+            ok = isinstance(got, list) and len(got) == 1 and bytes(got[0]) == data and addr_ok
+            what = (f"{bytes(got[0])[:12]!r}...{bytes(got[0])[-8:]!r} ({len(got[0])} of {len(data)} bytes)" if isinstance(got, list) and got else repr(got))
+            ctx.ob(rule, f"{dr.qual}::{name}::queued-as-received", ok,
+                   f"{dr.qual}: a {len(data)}-byte datagram ({name}) is queued as {what}{'' if addr_ok or not isinstance(got, list) else ' without its sender'}: the awaitable client passes unwrapped binary content (block segments) through this callback, "
+                   f"so bytes removed at either end shorten a segment - the block is assembled from short data and later bytes land at lower offsets, with the transfer reported as successful",
+                   dr.loc, sample={"rule": rule, "stack": "awaitable", "probe": name, "bytes": len(data)})
+    ctx.count(f"{rule}:receive-path probes", len(probes) * len(only))
